@@ -231,3 +231,99 @@ def roundtrip(job):
         res.append({"app0": b0["app"], "succ0": b0["succ"], "app1": b1["app"], "succ1": b1["succ"]})
     out["probes"] = res
     return out
+
+
+# ---------------------------------------------------------------- process-level sequences
+def roundtrip_seq(job):
+    """ONE DomainExporter instance, ONE Domain object D0 (parsed from job["domain_text"]) and ONE output path, used again
+    and again:
+      first                   export_domain(D0, path); the file is read back and parsed
+      after-apply             every probe is executed on D0 itself (Operator built on D0's own actions: is_applicable, apply),
+                              then D0 is exported to the same path again
+      other-domain            another domain text is parsed and exported by the same exporter to the same path (judged
+                              against its own text; it carries the probes only if they are its own - they are not, so none)
+      after-other-domain      then D0 again
+      after-change-signature  change_signature(mapping) on one action of D0, export again; the reference text is the
+                              domain text with that action's parameters renamed by the generator
+      after-inverse           change_signature(inverse mapping), export again; the reference is the original text
+    Every stage is answered like roundtrip(): the reference text is parsed afresh (vocab0, behaviour 0), the file written
+    at that stage is read (x1), parsed (vocab1, behaviour 1), exported once more by the same exporter to the same path (x2)
+    and parsed (vocab2)."""
+    text = job["domain_text"]
+    try:
+        d0 = parse_text(text)
+    except RecursionError as e:
+        return {"parse_raised": exc(e)}
+    except Exception as e:  # noqa
+        return {"parse_raised": exc(e)}
+    exporter = DomainExporter()
+    path = write_tmp("", ".pddl")
+    probes = job.get("probes", [])
+
+    def stage(label, ref_text, dom=None):
+        dom = d0 if dom is None else dom
+        out = {"stage": label, "cfg": digits_config(), "nums": number_table(ref_text), "text": ref_text}
+        try:
+            ref = parse_text(ref_text)
+            out["vocab0"] = vocab(ref)
+            out["reqs0"] = list(ref.requirements)
+            out["name0"] = ref.name
+        except Exception as e:  # noqa
+            out["parse_raised"] = exc(e)
+            return out
+        try:
+            exporter.export_domain(dom, path)
+            x1 = path.read_text()
+            out["x1"] = x1
+            out["nums"].update(number_table(x1))
+        except Exception as e:  # noqa
+            out["export_raised"] = exc(e)
+            return out
+        try:
+            d1 = parse_text(x1)
+            out["vocab1"] = vocab(d1)
+            out["reqs1"] = list(d1.requirements)
+            out["name1"] = d1.name
+        except Exception as e:  # noqa
+            out["reparse_raised"] = exc(e)
+            return out
+        try:
+            exporter.export_domain(d1, path)
+            x2 = path.read_text()
+            out["x2"] = x2
+            out["nums"].update(number_table(x2))
+            out["vocab2"] = vocab(parse_text(x2))
+        except Exception as e:  # noqa
+            out["second_raised"] = exc(e)
+        res = []
+        for pr in (probes if dom is d0 else []):
+            b0 = behaviour(ref, pr["problem_text"], pr["action"], pr["args"], pr.get("perm_seed", 0))
+            b1 = behaviour(d1, pr["problem_text"], pr["action"], pr["args"], pr.get("perm_seed", 0))
+            res.append({"app0": b0["app"], "succ0": b0["succ"], "app1": b1["app"], "succ1": b1["succ"]})
+        out["probes"] = res
+        return out
+
+    stages = []
+    try:
+        stages.append(stage("first", text))
+        for pr in probes:
+            behaviour(d0, pr["problem_text"], pr["action"], pr["args"], pr.get("perm_seed", 0))
+        stages.append(stage("after-apply", text))
+        if job.get("other_text"):
+            try:
+                other = parse_text(job["other_text"])
+            except Exception:  # noqa
+                other = None
+            if other is not None:
+                stages.append(stage("other-domain", job["other_text"], other))
+        stages.append(stage("after-other-domain", text))
+        rn = job.get("rename")
+        if rn:
+            d0.actions[rn["action"]].change_signature(dict(rn["mapping"]))
+            stages.append(stage("after-change-signature", rn["renamed_text"]))
+            d0.actions[rn["action"]].change_signature({v: k for k, v in rn["mapping"].items()})
+            stages.append(stage("after-inverse", text))
+    finally:
+        if path.exists():
+            path.unlink()
+    return {"stages": stages}
